@@ -218,7 +218,9 @@ def c02(tier, seed):
     jobs = []
     ng = 6 if quick else 16
     nsch = 12 if quick else 60
-    for i, cfg in enumerate(_graphs(seed + 200, ng, tie_every=2, handmade=2)):
+    from .. import families
+    fam2 = [families.early_arrival(random.Random(seed * 19 + k)) for k in range(1 if quick else 3)]
+    for i, cfg in enumerate(_graphs(seed + 200, ng - len(fam2), tie_every=2, handmade=2) + fam2):
         rng = random.Random(seed + i)
         runs = []
         for s in range(nsch):
